@@ -10,6 +10,9 @@ MODELDRV = os.path.join(VERIF, "modeldrv", "modeldrv")
 GOENV = dict(os.environ, GOFLAGS="-mod=mod", GOPROXY="off", GOSUMDB="off", GOTOOLCHAIN="local",
              CGO_ENABLED=os.environ.get("CGO_ENABLED", "1"))
 SCRATCH_ROOT = os.environ.get("VERIF_SCRATCH", "/var/tmp")
+# where evidence/ and replays/ are written (overridden when a seeded change is evaluated, so that
+# the committed evidence of the unchanged tree is not overwritten)
+OUT = os.environ.get("VERIF_OUT", VERIF)
 
 FORBIDDEN = r"Admitted|admit\b|\bAxiom\b|\bParameter\b|\bConjecture\b|Unset Guard|bypass_check|Admit Obligations|-type-in-type|impredicative-set"
 
@@ -262,7 +265,7 @@ class Report:
         self.known_entries = [f for f in load_known_findings() if f.get("property") == pid and f.get("status") == "known"]
 
     def replay_path(self):
-        d = os.path.join(VERIF, "replays")
+        d = os.path.join(OUT, "replays")
         os.makedirs(d, exist_ok=True)
         self.nrep += 1
         return os.path.join(d, "%s-seed%d-%d.json" % (self.pid, self.seed, self.nrep))
@@ -291,8 +294,8 @@ class Report:
         ev = {"property_id": self.pid, "tier": self.tier, "seed": self.seed, "level": level,
               "coverage": self.coverage, "assumptions": self.assumptions, "wall_s": wall,
               "violations": len(self.violations), "known_findings_reproduced": self.known}
-        os.makedirs(os.path.join(VERIF, "evidence"), exist_ok=True)
-        with open(os.path.join(VERIF, "evidence", self.pid + ".json"), "w") as fh:
+        os.makedirs(os.path.join(OUT, "evidence"), exist_ok=True)
+        with open(os.path.join(OUT, "evidence", self.pid + ".json"), "w") as fh:
             json.dump(ev, fh, indent=1, default=repr)
         for path, summary, no_input in self.violations:
             log("  violation: " + summary)
